@@ -910,6 +910,7 @@ func c16(r *h.Result, rng *h.Rng, tier string, replay string) error {
 				Stream  string     `json:"stream"`
 				Profile c16Profile `json:"profile"`
 				Merge   c16Merge   `json:"merge"`
+				Diff    c16DiffCase `json:"diff"`
 			} `json:"replay"`
 		}
 		if err := json.Unmarshal(b, &f); err != nil {
@@ -917,6 +918,9 @@ func c16(r *h.Result, rng *h.Rng, tier string, replay string) error {
 		}
 		if f.Replay.Stream == "stored" {
 			c16StoredCase(r, rng, f.Replay.Profile, &ops, &impl, &cases)
+		} else if f.Replay.Stream == "diff" {
+			c16DiffCaseRun(r, f.Replay.Diff, &ops, &impl, &cases)
+		} else if c16ReplayExt(r, rng, f.Replay.Stream, b, &ops, &impl, &cases) {
 		} else {
 			c16RunMerge(r, rng, f.Replay.Merge, &ops, &impl, &cases)
 		}
@@ -957,6 +961,11 @@ func c16(r *h.Result, rng *h.Rng, tier string, replay string) error {
 		if i%50 == 0 {
 			r.Sample(map[string]any{"stream": "stored", "types": p.Types, "samples": len(p.Samples), "mode": p.Mode})
 		}
+		if i%1000 == 999 {
+			if err := c16Flush(r, &ops, &impl, &cases); err != nil {
+				return err
+			}
+		}
 	}
 	mr := rng.Fork()
 	for i := 0; i < nMerges; i++ {
@@ -973,9 +982,27 @@ func c16(r *h.Result, rng *h.Rng, tier string, replay string) error {
 		if i%40 == 0 {
 			r.Sample(map[string]any{"stream": "merge", "profiles": len(m.Profiles), "type": m.Profiles[0].Types[m.Type], "orders": m.Orders})
 		}
+		if i%100 == 99 {
+			if err := c16Flush(r, &ops, &impl, &cases); err != nil {
+				return err
+			}
+		}
+	}
+	if err := c16Flush(r, &ops, &impl, &cases); err != nil {
+		return err
+	}
+	if err := c16Ext(r, rng, tier, &ops, &impl, &cases); err != nil {
+		return err
 	}
 	// run the model in chunks (one driver process per chunk)
 	return c16Compare(r, ops, impl, cases)
+}
+
+// compare what has been collected so far and drop it (the operations of a thorough run do not fit in memory together)
+func c16Flush(r *h.Result, ops, impl *[]string, cases *[]any) error {
+	err := c16Compare(r, *ops, *impl, *cases)
+	*ops, *impl, *cases = nil, nil, nil
+	return err
 }
 
 // run the model in chunks (one driver process per chunk), disagreements attributed to the stream of the operation
@@ -991,10 +1018,15 @@ func c16Compare(r *h.Result, ops, impl []string, cases []any) error {
 			return err
 		}
 		for k := i; k < j; k++ {
+			if strings.HasPrefix(ops[k], "c16capflame") {
+				model[k-i] = c16CapModelAnswer(model[k-i])
+			}
 			if impl[k] != model[k-i] {
 				stream := "stored"
 				if strings.HasPrefix(ops[k], "c16flame") {
 					stream = "merge"
+				} else if s := c16ExtStream(ops[k]); s != "" {
+					stream = s
 				}
 				op := ops[k]
 				if len(op) > 2000 {
